@@ -156,7 +156,7 @@ func (vc *FuncVC) enterLoopHeader(st *State, fr *Frame, from, to *ssa.BasicBlock
 			}
 		}
 		if st.ghost["sections"].T != cut.sections {
-			vc.addOblig(st, "lock", lname+"/lock-neutral:sections", vc.lockTags(), eq(st.ghost["sections"].T, cut.sections))
+			vc.addOblig(st, "lock", lname+"/lock-neutral:sections", []string{"C13"}, eq(st.ghost["sections"].T, cut.sections))
 		}
 		st.event("back-edge %s", lname)
 		vc.addCover(st, lname+"/cover:back")
@@ -407,6 +407,7 @@ type heapWrite struct {
 }
 
 type loopWriteSet struct {
+	volatileCells []ssa.Value // cells captured by a contracted closure created in the loop and assignable by it
 	writes  []heapWrite
 	ghosts  map[string]bool
 	user    bool
@@ -442,6 +443,27 @@ func (vc *FuncVC) loopWrites(st *State, fr *Frame, lp *loop) *loopWriteSet {
 			}
 		case *ssa.Alloc, *ssa.MakeClosure, *ssa.MakeMap, *ssa.MakeSlice, *ssa.MakeChan:
 			ws.alloc = true
+			if mc, ok := in.(*ssa.MakeClosure); ok && top {
+				if f, ok := mc.Fn.(*ssa.Function); ok {
+					if ct := vc.eng.spec.Contracts[relName(f)]; ct != nil {
+						for _, asg := range ct.Assigns {
+							u, ok := asg.(EUnary)
+							if !ok || u.Op != "*" {
+								continue
+							}
+							id, ok := u.X.(EIdent)
+							if !ok {
+								continue
+							}
+							for bi, fv := range f.FreeVars {
+								if fv.Name() == id.Name && bi < len(mc.Bindings) && definedOutside(mc.Bindings[bi], lp) {
+									ws.volatileCells = append(ws.volatileCells, mc.Bindings[bi])
+								}
+							}
+						}
+					}
+				}
+			}
 			switch y := in.(type) {
 			case *ssa.MakeMap:
 				mt := y.Type().Underlying().(*types.Map)
@@ -825,6 +847,18 @@ func (vc *FuncVC) contractWrites(st *State, ws *loopWriteSet, ct *Contract, call
 
 // applyLoopHavoc forgets everything the loop body may have changed.
 func (vc *FuncVC) applyLoopHavoc(st *State, fr *Frame, lp *loop, ws *loopWriteSet) {
+	for _, cv := range ws.volatileCells {
+		v, ok := vc.val(st, fr, cv).(V)
+		pt, isPtr := cv.Type().Underlying().(*types.Pointer)
+		if !ok || !isPtr || isSyncType(pt.Elem()) {
+			continue
+		}
+		hn, _ := cellHeap(vc.w.sortOf(pt.Elem()))
+		if st.volatile == nil {
+			st.volatile = map[string]bool{}
+		}
+		st.volatile[hn+"|"+v.T] = true
+	}
 	aliveAtEntry := st.heapGet("alive", aliveSort)
 	if ws.alloc || ws.user {
 		nw := st.heapHavoc("alive", aliveSort)
